@@ -767,8 +767,28 @@ def long_line_check_cases(rng):
     return cases
 
 
+def raw_long_cases(rng):
+    """--raw with long --length values: megabytes of extended output through b3sum's own write loop into a pipe (whatever the
+    bytes happen to be: newlines, long runs without one, ...), at block-unaligned seeks; one file each"""
+    cases = []
+    for length, seek in [(1025, 0), (8192, 63), (65536, 0), (65537, 1), (200000, 1000), (1 << 20, 0), (4 << 20, 0), (4 << 20, (1 << 32) - 1),
+                         (4 << 20, (1 << 40) + 17), ((4 << 20) + 4097, 31)]:
+        nm = rng.choice([b"a", b"file.txt"])
+        data = lcg_bytes(rng.choice([0, 3, 1025, 70000]), rng.randrange(1 << 32))
+        mode, stdin, pre = ("hash",), b"", []
+        r = rng.random()
+        if r < 0.3:
+            key = bytes(rng.randrange(256) for _ in range(32))
+            mode, stdin, pre = ("keyed", key), key, [b"--keyed"]
+        elif r < 0.5:
+            mode, pre = ("derive", b"raw long"), [b"--derive-key", b"raw long"]
+        argv = pre + [b"--raw", b"--length", str(length).encode()] + ([b"--seek", str(seek).encode()] if seek else []) + [b"--", nm]
+        cases.append(dict(kind="hash", argv=argv, stdin=stdin, files={nm: data}, stdout=[("xofraw", mode, nm, seek, length)], exit=0))
+    return cases
+
+
 def cases_for_c12(rng, n):
-    cases = long_line_check_cases(rng)
+    cases = long_line_check_cases(rng) + raw_long_cases(rng)
     for i in range(n):
         cases.append(hash_case(rng) if i % 2 == 0 else check_case(rng))
     return cases
